@@ -71,10 +71,13 @@ def generate(seed, profile):
         got = g.gen()
         if got is None:
             continue
-        for op in (got if isinstance(got, list) else [got]):
+        many = isinstance(got, list) and len(got) > 20
+        for j, op in enumerate(got if isinstance(got, list) else [got]):
             if not M.valid(model, op):
                 continue
-            op['dt'] = draw_dt(renv)
+            # the hundreds of edits of a big macro-op happen in one go: years between each of them would carry the
+            # clock past 2155, the last year a directory record date can hold
+            op['dt'] = draw_dt(renv) if not (many and j) else 0.0
             model.apply(op)
             ops.append(op)
     if profile.final_restart and (not ops or ops[-1]['op'] != 'restart'):
